@@ -32,6 +32,9 @@ Proof.
   - apply orb_false_iff. split; auto. apply IHl. auto.
 Qed.
 
+Lemma existsb_false_In : forall {A} (p : A -> bool) l x, existsb p l = false -> In x l -> p x = false.
+Proof. intros. eapply existsb_false_forall in H; eauto. Qed.
+
 Lemma find_ext_eq : forall {A} (p q : A -> bool) l, (forall x, p x = q x) -> find p l = find q l.
 Proof. induction l; simpl; intros; auto. rewrite H, IHl; auto. Qed.
 
@@ -151,3 +154,103 @@ Proof. reflexivity. Qed.
 
 Lemma implementers_app : forall l1 l2 iface, implementers (l1 ++ l2) iface = implementers l1 iface ++ implementers l2 iface.
 Proof. intros. unfold implementers. apply flat_map_app. Qed.
+
+(* ------------------------------------------------------------------ consequences of wf_schema *)
+Ltac andb_split H :=
+  repeat match type of H with
+         | (_ && _ = true) => let H1 := fresh H in apply andb_true_iff in H; destruct H as [H H1]
+         end.
+
+Lemma is_nil_eq : forall {A} (l : list A), is_nil l = true -> l = [].
+Proof. destruct l; simpl; intros; auto; discriminate. Qed.
+
+Lemma find_type_In : forall n l t, find_type n l = Some t -> In t l /\ td_name t = n.
+Proof.
+  induction l; simpl; intros t H; try discriminate.
+  destruct (bytes_eqb n (td_name a)) eqn:E.
+  - inversion H; subst. apply bytes_eqb_eq in E. auto.
+  - apply IHl in H. tauto.
+Qed.
+Lemma find_type_unique : forall l t, NoDup (map td_name l) -> In t l -> find_type (td_name t) l = Some t.
+Proof.
+  induction l; simpl; intros t ND I; try contradiction. inversion ND; subst.
+  destruct I as [I|I].
+  - subst. rewrite bytes_eqb_refl. auto.
+  - destruct (bytes_eqb (td_name t) (td_name a)) eqn:E.
+    + apply bytes_eqb_eq in E. exfalso. apply H1. rewrite <- E. apply in_map. auto.
+    + apply IHl; auto.
+Qed.
+Lemma find_type_app : forall n l1 l2,
+  find_type n (l1 ++ l2) = match find_type n l1 with Some t => Some t | None => find_type n l2 end.
+Proof. induction l1; simpl; intros; auto. destruct (bytes_eqb n (td_name a)); auto. Qed.
+Lemma find_type_none : forall n l, ~ In n (map td_name l) -> find_type n l = None.
+Proof.
+  induction l; simpl; intros; auto. destruct (bytes_eqb n (td_name a)) eqn:E.
+  - apply bytes_eqb_eq in E. exfalso. apply H. auto.
+  - apply IHl. tauto.
+Qed.
+
+Definition gen_ok (S : schema) : Prop := generate_lossy S = [].
+
+Lemma app_nil_both : forall {A} (a c : list A), a ++ c = [] -> a = [] /\ c = [].
+Proof. destruct a; simpl; intros; auto. discriminate. Qed.
+
+Lemma if_nil : forall (c : bool) (x : name), (if c then [x] else []) = [] -> c = false.
+Proof. destruct c; intros; auto; discriminate. Qed.
+
+Section Facts.
+  Variable S : schema.
+  Hypothesis WF : wf_schema S = true.
+
+  Lemma wf_parts :
+    NoDup (map td_name (s_types S)) /\ NoDup (map dd_name (s_directives S))
+    /\ (forall t, In t (s_types S) -> td_wf S t = true)
+    /\ (forall d, In d (s_directives S) -> dd_wf S d = true)
+    /\ root_wf S (s_query S) = true /\ opt_root_wf S (s_mutation S) = true
+    /\ opt_root_wf S (s_subscription S) = true.
+  Proof.
+    unfold wf_schema in WF. andb_split WF.
+    repeat split; auto.
+    - apply nodup_b_NoDup. auto.
+    - apply nodup_b_NoDup. auto.
+    - apply forallb_forall. auto.
+    - apply forallb_forall. auto.
+  Qed.
+
+  Hypothesis GOK : gen_ok S.
+
+  Lemma gen_ok_parts :
+    (forall ds, In ds (all_deprecable_dirs S) -> str_special (reason_of ds) = false)
+    /\ (forall t, In t (s_types S) -> str_special (url_of (td_dirs t)) = false)
+    /\ (forall ds, In ds (all_deprecable_dirs S) -> reason_of ds <> Some VNull)
+    /\ (forall iv v, In iv (all_input_values S) -> iv_default iv = Some v -> value_ok v = true)
+    /\ (forall t, In t (s_types S) -> td_name t <> #"schema" /\ ~ In (td_name t) (map dd_name (s_directives S)))
+    /\ (forall t, In t (s_types S) -> ~ In (td_name t) base_scalar_names)
+    /\ (forall d, In d (s_directives S) -> ~ In (dd_name d) (map dd_name base_public_directives))
+    /\ (s_mutation S = None -> has_object_named #"Mutation" S = false)
+    /\ (s_subscription S = None -> has_object_named #"Subscription" S = false).
+  Proof.
+    unfold gen_ok, generate_lossy in GOK.
+    apply app_nil_both in GOK. destruct GOK as [G1 G]. apply app_nil_both in G. destruct G as [G2 G].
+    apply app_nil_both in G. destruct G as [G3 G]. apply app_nil_both in G. destruct G as [G4 G].
+    apply app_nil_both in G. destruct G as [G5 G6].
+    apply if_nil in G1. apply if_nil in G2. apply if_nil in G3. apply if_nil in G4. apply if_nil in G5. apply if_nil in G6.
+    apply orb_false_iff in G1. destruct G1 as [G1a G1b].
+    apply orb_false_iff in G5. destruct G5 as [G5a G5b].
+    apply orb_false_iff in G6. destruct G6 as [G6a G6b].
+    repeat split.
+    - intros ds I. apply (existsb_false_In _ _ _ G1a I).
+    - intros t I. apply (existsb_false_In _ _ _ G1b I).
+    - intros ds I E. pose proof (existsb_false_In _ _ _ G2 I) as G. cbv beta in G. rewrite E in G. discriminate.
+    - intros iv v I E. pose proof (existsb_false_In _ _ _ G3 I) as G. cbv beta in G. rewrite E in G.
+      apply negb_false_iff in G. auto.
+    - pose proof (existsb_false_In _ _ _ G4 H) as G. cbv beta in G. apply orb_false_iff in G. destruct G as [G _].
+      apply bytes_eqb_neq. auto.
+    - pose proof (existsb_false_In _ _ _ G4 H) as G. cbv beta in G. apply orb_false_iff in G. destruct G as [_ G].
+      intro I. apply mem_bytes_In in I. congruence.
+    - intros t I M. pose proof (existsb_false_In _ _ _ G5a I) as G. cbv beta in G. apply mem_bytes_In in M. congruence.
+    - intros d I M. pose proof (existsb_false_In _ _ _ G5b I) as G. cbv beta in G. apply mem_bytes_In in M. congruence.
+    - intro E. rewrite E in G6a. auto.
+    - intro E. rewrite E in G6b. auto.
+  Qed.
+End Facts.
